@@ -218,10 +218,25 @@ func runC02(c *Ctx) {
 			if ph, isPhi := vals[1].(*ssa.Phi); isPhi {
 				d = D(ph)
 			}
-			offOK := Guarded(r, func(g Guard) bool {
-				dd := D(g.Cond)
-				return g.Pol && strings.Contains(dd, ".Offset == ") && (strings.Contains(dd, "cmdOffset + 1") || strings.Contains(dd, "arg:cmdOffset"))
-			}) || (strings.Contains(d, "Publications[0].Offset == (arg:cmdOffset + 1)") || strings.Contains(d, ".Offset == arg:cmdOffset"))
+			offsetVsParam := func(v ssa.Value) bool {
+				b, ok := v.(*ssa.BinOp)
+				return ok && b.Op == token.EQL && strings.HasSuffix(D(b.X), ".Offset") && mentionsParamOfKind(b.Y, types.Uint64, 0)
+			}
+			retTests := func(v ssa.Value) bool {
+				if offsetVsParam(v) {
+					return true
+				}
+				if ph, ok := v.(*ssa.Phi); ok {
+					for _, e := range ph.Edges {
+						if offsetVsParam(e) {
+							return true
+						}
+					}
+				}
+				return false
+			}
+			_ = d
+			offOK := Guarded(r, func(g Guard) bool { return g.Pol && offsetVsParam(g.Cond) }) || retTests(vals[1])
 			c.Check("C02.R5", r, "recovered=true only past the first/last offset test", offOK, "a missing publication after the requested offset or a truncated result must not be reported as recovered")
 		})
 		c.Floor("C02.R5", 2)
